@@ -1,4 +1,4 @@
-import GeffProofs.LinkStoreExact
+import GeffProofs.LinkStoreArr
 import GeffProofs.C03Aux
 import GeffProofs.VlenNorm
 /-! Integration layer, link C03 ← C01: the bridge between C03's in-memory geff (`Geff.Dicts.MemGeff`,
@@ -14,14 +14,6 @@ open Geff.Dicts (Col Row MemGeff)
 open Geff.WR (PropArr PVals Props InMem ReadResult CallerMeta)
 
 /-! ### C03's in-memory geff (columns of rows) as C01's in-memory geff (numpy arrays) -/
-
-/-- the id array of dtype `d` -/
-def idArr (d : Dtype) (ids : List Int) : NdArr := ⟨d, [ids.length], ids.map .i⟩
-/-- the `(E, 2)` edge id array of dtype `d` -/
-def edgeArr (d : Dtype) (es : List (Int × Int)) : NdArr :=
-  ⟨d, [es.length, 2], es.flatMap fun e => [.i e.1, .i e.2]⟩
-/-- a boolean mask -/
-def maskArr (ms : List Bool) : NdArr := ⟨.bool, [ms.length], ms.map .b⟩
 
 /-- the per-element shape of a regular column (`[]` when it has no rows) -/
 def rowShape : List Row → List Nat
@@ -46,30 +38,6 @@ metadata of its own -/
 def callerMeta (m : MemGeff) (axes : Option (List String)) : CallerMeta := ⟨m.directed, axes, [], []⟩
 
 /-! ### and back: what `read_to_memory` returns, as columns -/
-
-def intsOf : List Val → Option (List Int)
-  | [] => some []
-  | .i x :: t => (intsOf t).map (x :: ·)
-  | _ :: _ => none
-
-def pairsOf : List Int → Option (List (Int × Int))
-  | [] => some []
-  | a :: b :: t => (pairsOf t).map ((a, b) :: ·)
-  | [_] => none
-
-def boolsOf : List Val → Option (List Bool)
-  | [] => some []
-  | .b x :: t => (boolsOf t).map (x :: ·)
-  | _ :: _ => none
-
-/-- `n` consecutive chunks of `k` values -/
-def chunks (k : Nat) : Nat → List Val → List (List Val)
-  | 0, _ => []
-  | n + 1, fl => fl.take k :: chunks k n (fl.drop k)
-
-def maskBack : Option NdArr → Option (Option (List Bool))
-  | none => some none
-  | some m => (boolsOf m.flat).map some
 
 /-- a property dict as a column; `none` when it is not one (a rank-0 values array, a non-boolean mask) -/
 def propToCol (p : PropArr) : Option Col :=
@@ -135,29 +103,6 @@ structure Storable (m : MemGeff) : Prop where
   edge : ∀ p ∈ m.edgeProps, Geff.WR.validName p.1 = true ∧ ColOK p.2
 
 /-! ### lemmas -/
-
-theorem intsOf_map (l : List Int) : intsOf (l.map .i) = some l := by
-  induction l with
-  | nil => rfl
-  | cons a t ih => simp [intsOf, ih]
-
-theorem boolsOf_map (l : List Bool) : boolsOf (l.map .b) = some l := by
-  induction l with
-  | nil => rfl
-  | cons a t ih => simp [boolsOf, ih]
-
-theorem intsOf_edges (es : List (Int × Int)) :
-    (intsOf (es.flatMap fun e => [Val.i e.1, Val.i e.2])).bind pairsOf = some es := by
-  have : intsOf (es.flatMap fun e => [Val.i e.1, Val.i e.2]) = some (es.flatMap fun e => [e.1, e.2]) := by
-    induction es with
-    | nil => rfl
-    | cons a t ih => simp [intsOf, ih]
-  rw [this]
-  simp only [Option.bind_some]
-  clear this
-  induction es with
-  | nil => rfl
-  | cons a t ih => simp [pairsOf, ih]
 
 theorem chunks_flatMap (k : Nat) (rows : List (List Val)) (h : ∀ r ∈ rows, r.length = k) :
     chunks k rows.length (rows.flatMap id) = rows := by
@@ -333,11 +278,6 @@ theorem col_writable_rows (name : String) (c : Col) (n : Nat) (hname : Geff.WR.v
 
 theorem map_fst_propsOf (ps : List (String × Col)) : (propsOf ps).map (·.1) = ps.map (·.1) := by
   unfold propsOf; rw [List.map_map]; rfl
-
-theorem length_edgeFlat (es : List (Int × Int)) : (es.flatMap fun e => [Val.i e.1, Val.i e.2]).length = es.length * 2 := by
-  induction es with
-  | nil => rfl
-  | cons a t ih => simp [ih]; omega
 
 /-- a valid, storable in-memory geff is a well-formed graph in the sense of C01 -/
 theorem wf_toInMem (d : Dtype) (hd : d.isInteger = true) (m : MemGeff) (hv : Geff.Backends.MemValid m)
